@@ -84,7 +84,7 @@ fn salt_of(api: usize) -> Option<&'static [u8]> {
 }
 
 fn menu_len(api: usize) -> usize {
-    if (1..=3).contains(&api) {
+    if (1..=4).contains(&api) {
         MUT_MENU
     } else {
         MENU
@@ -95,7 +95,7 @@ fn menu_name(api: usize, v: usize) -> &'static str {
     match api {
         0 => ["no-value", "right-value", "other-bytes", "bit-flip", "value-of-other-target", "empty", "mutable-reply", "peers-reply"][v],
         1..=3 => ["no-value", "right-item", "other-key-valid", "other-salt", "seq-altered", "value-altered", "sig-altered", "bad-curve-point", "unsalted-slot-item", "immutable-reply"][v],
-        _ => ["valid", "valid+forged", "forged+valid", "other-infohash", "key-sig-mismatch", "ts-altered", "empty-list", "peers-reply"][v],
+        _ => ["valid", "valid+forged", "forged+valid", "other-infohash", "key-sig-mismatch", "ts-altered", "empty-list", "peers-reply", "15-valid+forged-last", "16-valid"][v],
     }
 }
 
@@ -175,7 +175,20 @@ fn forged_fields(api: usize, v: usize, now_micros: u64) -> Vec<(&'static str, B)
                 4 => vec![("peers", B::List(vec![forged]))],
                 5 => vec![("peers", B::List(vec![rec(&k.sk, &k.pk, &INFOHASH, now_micros, now_micros + 1)]))],
                 6 => vec![("peers", B::List(vec![]))],
-                _ => vec![("values", B::List(vec![B::bytes([1, 2, 3, 4, 0, 80])]))],
+                7 => vec![("values", B::List(vec![B::bytes([1, 2, 3, 4, 0, 80])]))],
+                // long lists (16 records is about what fits a datagram next to the node list):
+                // every record must be verified, not only the first few
+                8 | 9 => {
+                    let mut l: Vec<B> = (0..15u8)
+                        .map(|i| {
+                            let ski = krpc::signing_key(0x70 + i);
+                            rec(&ski, &ski.verifying_key().to_bytes(), &INFOHASH, now_micros, now_micros)
+                        })
+                        .collect();
+                    l.push(if v == 8 { rec(&k.sk, &k.pk, &[0x11; 20], now_micros, now_micros) } else { valid });
+                    vec![("peers", B::List(l))]
+                }
+                _ => unreachable!(),
             }
         }
     }
@@ -200,6 +213,8 @@ struct Cfg {
     /// while the node's own put_mutable for the key is looking up, 3 (salted mutable only) a
     /// second caller asks 100 ms later for the same key under a salt one byte longer
     join: usize,
+    /// the lookups go through the blocking `Dht` API
+    sync: bool,
 }
 
 struct Out {
@@ -284,6 +299,7 @@ fn scenario(cfg: &Cfg, track: bool) -> Out {
     });
     let lat_rank = permutation(n, cfg.order);
     let k = keys();
+    w.sync_api = cfg.sync;
     let start_call = |w: &mut World| match cfg.api {
         0 => w.call_get_immutable(a, target.into()),
         1 => w.call_get_mutable(a, k.pk, None, None),
@@ -293,9 +309,21 @@ fn scenario(cfg: &Cfg, track: bool) -> Out {
     };
     let mut calls = vec![];
     if cfg.join == 2 {
-        // the node's own put for the salted slot starts the lookup; the get joins it
-        let item = MutableItem::new(&k.sk, b"own put", 1, Some(SALT));
-        w.call_put_mutable(a, item, None);
+        // the node's own put for the same target starts the lookup; the get joins it
+        match cfg.api {
+            0 => {
+                w.call_put_immutable(a, IMM.to_vec());
+            }
+            1 => {
+                w.call_put_mutable(a, MutableItem::new(&k.sk, b"own put", 1, None), None);
+            }
+            2 | 3 => {
+                w.call_put_mutable(a, MutableItem::new(&k.sk, b"own put", 1, Some(SALT)), None);
+            }
+            _ => {
+                w.call_announce_signed_peer(a, INFOHASH.into(), k.sk.clone());
+            }
+        }
     }
     calls.push(start_call(&mut w));
     let join_at = w.now + 100 * MS;
@@ -381,14 +409,18 @@ fn configs(tier: Tier) -> Vec<Cfg> {
             let answers: Vec<usize> = (0..n).map(|i| (c / ml.pow(i as u32)) % ml).collect();
             for order in 0..orders {
                 for join in 0..4 {
-                    if join >= 2 && api != 2 {
+                    if join == 3 && api != 2 {
                         continue;
                     }
-                    if join >= 1 && tier.is_quick() && order % 2 == 1 {
-                        // quick: joiners with half of the arrival orders
+                    if join >= 1 && tier.is_quick() && (order % 2 == 1 || (join == 2 && api != 2 && order != 0)) {
+                        // quick: joiners with half of the arrival orders (own put of the other kinds: one order)
                         continue;
                     }
-                    v.push(Cfg { api, answers: answers.clone(), order, join });
+                    v.push(Cfg { api, answers: answers.clone(), order, join, sync: false });
+                    // the same lookups through the blocking API
+                    if join <= 1 && (!tier.is_quick() || order % 3 == join) {
+                        v.push(Cfg { api, answers: answers.clone(), order, join, sync: true });
+                    }
                 }
             }
         }
@@ -397,7 +429,7 @@ fn configs(tier: Tier) -> Vec<Cfg> {
 }
 
 fn cfg_json(c: &Cfg) -> Value {
-    json!({"api": c.api, "answers": c.answers, "order": c.order, "join": c.join})
+    json!({"api": c.api, "answers": c.answers, "order": c.order, "join": c.join, "sync": c.sync})
 }
 
 fn record(c: &Cfg, o: &Out, out: &mut Partial) {
@@ -407,6 +439,9 @@ fn record(c: &Cfg, o: &Out, out: &mut Partial) {
     out.add("elements_yielded", o.yielded as u64);
     if o.positive_control {
         out.add("positive_controls", 1);
+        if c.sync {
+            out.add("positive_controls_blocking_api", 1);
+        }
     }
     if !o.done {
         out.add("non_instances_pending", 1);
@@ -419,8 +454,8 @@ fn record(c: &Cfg, o: &Out, out: &mut Partial) {
         offered.sort();
         offered.dedup();
         out.violation(
-            format!("{key}/{}/join{}/{}", APIS[c.api], c.join, offered.join("+")),
-            format!("{} with endpoint answers {names:?}, arrival order #{}, join mode {}: {desc}", APIS[c.api], c.order, c.join),
+            format!("{key}/{}/join{}/{}{}", APIS[c.api], c.join, offered.join("+"), if c.sync { "/blocking-api" } else { "" }),
+            format!("{}{} with endpoint answers {names:?}, arrival order #{}, join mode {}: {desc}", if c.sync { "[blocking Dht API] " } else { "" }, APIS[c.api], c.order, c.join),
             cfg_json(c),
         );
     }
@@ -453,6 +488,7 @@ fn replay(v: &Value) -> Result<Option<Violation>, String> {
         answers: v.get("answers").and_then(|x| x.as_array()).ok_or("answers")?.iter().filter_map(|x| x.as_u64().map(|x| x as usize)).collect(),
         order: v.get("order").and_then(|x| x.as_u64()).ok_or("order")? as usize,
         join: v.get("join").and_then(|x| x.as_u64()).ok_or("join")? as usize,
+        sync: v.get("sync").and_then(|x| x.as_bool()).unwrap_or(false),
     };
     let o = scenario(&cfg, false);
     let mut out = Partial::default();
